@@ -338,6 +338,16 @@ def cval_static(s):
         return None
 
 
+def clause_digit_capacity(facts, rep):
+    """a number literal with hundreds of digits is converted through the 800-digit Decimal of the slow path: every
+    subscript of the digit array stays below its capacity and the digit count never exceeds it (zone analysis,
+    sv/counted_buf.py; upper side only)"""
+    from .. import counted_buf
+    a = counted_buf.Analysis(facts, 'Decimal', 'd', 'nd', ('atof_native.h',))
+    n = a.run(rep, 'E3.digit-capacity', facts.config)
+    rep.require(n >= 12, 'C02.digit-capacity: %d subscripts of the digit array found (>= 12 expected)' % n)
+
+
 def run(rep, tier):
     configs = ['K1'] if tier == 'quick' else ['K1', 'K2', 'K3', 'K4', 'K7']
     for cfg in configs:
@@ -357,6 +367,7 @@ def run(rep, tier):
         from . import c16
         c16.chunk_size_rule(facts, rep)
         c16.clause_a(facts, rep, '')       # a pool on a user buffer: the capacity accounts for the alignment skip
+        clause_digit_capacity(facts, rep)
     rep.min_instances('E1.status', 20)
     rep.trust('clang 14 parser/template instantiation/CFG builder', 'sv/primitives.py load widths',
               'libc realloc/free/memcpy semantics')
